@@ -20,6 +20,30 @@ CLAIMED = {
  "C06": ("exploration", "§4 C06", "deterministic simulation: states + limit knob + hook faults; per-candidate contract monitor and differential truncation oracle",
    "CompletionAtPos at the visited offsets of quiescent states, prefill on and off, limit knob in {1,2,3,7,100}: every candidate's edit must name the requested file, be well formed, start at or before the cursor and reach it (blanks aside), plain text without tab stops, snippet with consecutive stops each at most once; len<=limit; a list marked complete must not grow when the limit is lifted (differential run) and must not belong to a top-level attribute with a registered hook.",
    "The limit knob sets the unexported maxCandidates by reflection (skipped if the field disappears); 'no hook may add more' is decided only for top-level attributes of cleanly parsed generated files."),
+ "C07": ("exploration", "§4 C07 / §12.2", "deterministic simulation supplying states and accept-candidate edit events; exact comparison with an independent effective-schema model",
+   "On generated configurations (cleanly parsed, indexer caught up) the candidate labels at cursors in body white space, inside attribute names / block types (typed prefix) and inside completable labels are compared exactly with the model of the effective schema (static body overlaid with the dependent body selected by labels / attribute values / defaults / references / second level, extensions, maxima, declared attributes), under varying map order; a sample of candidates is then accepted as an edit event and validation must not report the inserted item.",
+   "The model says nothing (may) where the statement is silent: key attributes written as non-literal expressions, half-resolved second level, content of dynamic blocks, attribute/block name clashes, whether 'dynamic' is offered when no block type exists."),
+ "C08": ("exploration", "§4 C08 / §12.2", "deterministic simulation supplying states, collected target sets and accept-candidate edit events; soundness predicates and round trip through go-to-definition",
+   "At cursors inside attribute values: every reference candidate is the address of a collected declaration, starts with the typed text, uses a block-local address only inside its block (self.* only where enabled), is not the attribute being edited and - in direct values - fits a reference-admitting constraint of the attribute; function candidates are known functions with the prefix; keyword/boolean candidates are admitted by the constraint; accepting a fitting reference candidate (edit event, re-collection) must resolve to the declaration.",
+   "Type/scope fit and keyword/boolean admission are only decided where the cursor is in the attribute's direct value (inside operators, index keys, function arguments other types are expected); the target set is the library's own collection (C09 checks that)."),
+ "C09": ("exploration", "§4 C09 / §12.2", "deterministic simulation (map-order schedules) over generated configurations; structural invariants plus exactness of block/attribute targets against the generator's ground truth",
+   "CollectReferenceTargets under varying map order: nested targets extend the parent's address by exactly one step, list indexes follow source order, elements of written values lie inside the value; every written block/attribute the effective schema marks addressable has a target with the address built from its steps, its own extent as range and its header/name as definition range; every top-level target belongs to such a declaration (nothing for unknown items).",
+   "Types of inferred bodies and the representative range of multi-block collection targets are not compared; addresses without steps or with empty steps, keyword/literal-value/type-declaration attributes and traversals declared by address-carrying reference constraints are left open."),
+ "C10": ("exploration", "§4 C10 / §12.2", "deterministic simulation (map-order schedules) over generated expressions; Must/May origin model",
+   "The origin model walks every generated expression under the constraint of its attribute in the effective schema (any-expression with type-aware operators and function parameters, reference, collections, objects, one-of as union) and lists the origins the statement requires and the spans it leaves open; CollectReferenceOrigins must contain each required origin exactly once, nothing outside Must/May, ordered by file and position, under three map orders.",
+   "for-expressions, conditionals, unknown functions, literal index keys and type-incorrect operations are 'may'; iterator variables are not references."),
+ "C11": ("exploration", "§4 C11 / §12.2", "deterministic simulation: multi-path worlds, stale target/origin sets from delayed indexer jobs, reader faults; inverse relation over the recorded lookups",
+   "For every collected origin (fresh or stale sets, reader faults on other paths held constant over the pair of calls, cloned paths with identical offsets): every declaration go-to-definition reports with a definition range must report the origin back when find-references is asked there; count/each/self resolve only inside their own block and file; origins pointing into another path resolve in that path only.",
+   "Exactness of address/type matching against an independent match model is not claimed; lookups under stale sets are skipped when the recomputed position falls outside the stored definition lines."),
+ "C15": ("exploration", "§4 C15 / §12.2", "deterministic simulation (map-order schedules, permuted validators) over generated violations; diagnostic model compared as a multiset",
+   "The diagnostic model lists, from the generated configuration and the effective schema of every body, the unexpected attributes/blocks (none below a block whose dependent body was not resolved), missing required attributes, surplus/missing labels, too many/too few blocks (dynamic blocks satisfy minima) and deprecations; ValidateFile and Validate must return exactly that multiset of (severity, summary, subject).",
+   "Subjects of body-level diagnostics are compared by innermost body (the parser's body range of one-line blocks starts at the first item); blocks with non-literal key expressions and the content of dynamic blocks are left out on both sides."),
+ "C16": ("exploration", "§4 C16 / §12.2", "deterministic simulation: permutations of key listings under map-order schedules (canonicity, injectivity) and cross-feature agreement against the selection model",
+   "NewSchemaKey must be equal for every permutation of a key set's listing (all dependent bodies of the generated schema plus generated and look-alike key sets: literal vs reference of the same text, \"1\" vs 1, value under another name) and distinct for distinct sets; inside every written block with defined keys, hover on attributes and key labels, attribute-name tokens and document links must agree with the body the selection model picks (completion and validation are compared with the same model by C07 and C15).",
+   "Targets/origins inside the selected body are covered by C09/C10 with the same model."),
+ "C19": ("exploration", "§4 C19 / §12.2", "deterministic simulation: twin deployment rendered to HCL JSON from the same model, compared under map-order schedules",
+   "For every path inside the fragment both syntaxes express, a twin store is built from the same model with the files rendered as HCL JSON (pretty or one line); absolute targets (address, type, scope, nesting), origins (addresses) and the schema-known outline of the two must agree.",
+   "Left open: label counts differing from the schema, key attributes and address steps written as references, blocks inside any-attribute bodies, string literals where a reference is expected (legacy bare references); one recorded finding (quoted index keys inside JSON strings)."),
  "C12": ("exploration", "§4 C12", "deterministic simulation supplying states; per-offset hover invariant against the renderer's node table",
    "HoverAtPos at every offset of quiescent states: nothing/an error, or non-empty content with a range of the file that contains the cursor; on attribute names, block types and labels (positions known from the renderer of the generated configuration) the content names the element and the range is the whole attribute / the type keyword / the label.",
    "Description text of the effective schema is not compared yet; 'innermost sub-expression' is checked as containment only."),
